@@ -437,6 +437,39 @@ def box_contract(kind, box, pts):
     return None
 
 
+def inplace_box_contract(kind, box, pts):
+    """the box helpers are functions of the box *values*: after the caller changes a box array in place (a rescaled
+    cell, a buffer refilled for the next trajectory frame) every helper answers as for a fresh array of those values"""
+    f32 = pts.astype(np.float32)
+    b = box.astype(np.float32).copy()
+
+    def answers(bx):
+        arr = struc.AtomArray(len(f32))
+        arr.coord = f32
+        arr.box = bx
+        return [np.asarray(struc.coord_to_fraction(f32, bx), dtype=float), np.asarray(struc.move_inside_box(f32, bx), dtype=float),
+                np.asarray(struc.distance(f32[0], f32[1], box=bx), dtype=float), np.asarray(struc.displacement(f32[0], f32[2], box=bx), dtype=float),
+                np.asarray(struc.index_distance(f32, np.array([[0, 3]]), periodic=True, box=bx), dtype=float),
+                np.asarray(struc.remove_pbc_from_coord(f32, bx), dtype=float)]
+    answers(b)                                   # some use of the box ...
+    for step, change in (("rescaled in place", lambda x: x.__imul__(1.7)), ("one vector lengthened in place", lambda x: x.__setitem__((0, slice(None)), x[0] * 1.5)),
+                         ("refilled in place", lambda x: x.__setitem__(slice(None), box.astype(np.float32) * 0.8))):
+        change(b)                                # ... then the same array gets other values
+        same_object = answers(b)
+        fresh = answers(b.copy())
+        for name, x, y in zip(("coord_to_fraction", "move_inside_box", "distance", "displacement", "index_distance", "remove_pbc_from_coord"), same_object, fresh):
+            if x.shape != y.shape or not np.allclose(x, y, atol=1e-3, equal_nan=True):
+                return f"box {step}: {name} with the same array object gives {np.round(x, 3).tolist()}, with a fresh array of the same values {np.round(y, 3).tolist()}"
+    return None
+
+
+for it in range(max(3, N // 10)):
+    for kind, box in boxes(rng):
+        pts = rng.uniform(-25, 25, size=(5, 3))
+        R.check("box helpers act by lattice vectors and are mutually inverse", f"box changed in place {kind}", {"box": box.round(4).tolist(), "draw": it},
+                lambda kind=kind, box=box, pts=pts: inplace_box_contract(kind, box, pts))
+
+
 def unitcell_contract(lengths, angles_deg):
     """cell -> box vectors -> cell is the identity (documented inverse pair), the vectors have the documented
     orientation (a along x, b in the xy plane) and enclose the requested angles (float64 recomputation)"""
